@@ -300,6 +300,82 @@ def big_offsets(chk, w2c2):
         break
 
 
+def limit_shapes(chk, w2c2):
+    """Memories at the top of the 32-bit page-count range (lazily committed by the host, so cheap): a shared memory whose declared
+    maximum is 65536 pages (the runtime reserves the maximum), memories of 65535 pages that grow by one, a 65536-page memory.
+    Reference = V8 on the same script, except that a grow landing exactly on 65536 pages may legitimately fail on either side
+    (resource limit): such a line is accepted if it is the old size or -1, and the rest of the script adapts to the C side's
+    own answer. After every step the descriptor invariant V (allocation backs the size / the reserved maximum) is checked."""
+    try:
+        import mmap
+        mm = mmap.mmap(-1, 65536 * 65536)
+        mm.close()
+    except Exception as ex:
+        chk.observe('limit_shapes_part', 'skipped: host cannot reserve 4 GiB', 'set')
+        return
+    ran = 0
+    for lim, grows in (((1, 65536, True), [1, 0]), ((0, 65536, True), [2]), ((65535, 65536, False), [1]), ((65535, None, False), [1, 1]),
+                       ((65536, 65536, False), [0, 1]), ((32768, 65536, False), [32768]), ((65534, 65535, False), [1, 1])):
+        m = Module()
+        m.mems.append(lim)
+        m.exports.append(('mem', 'memory', 0))
+        m.add_func([I32, I32], [], [], [('local.get', 0), ('local.get', 1), ('i32.store', 2, 0)], export='st')
+        m.add_func([I32], [I32], [], [('local.get', 0), ('i32.load', 2, 0)], export='ld')
+        m.add_func([I32], [I32], [], [('local.get', 0), ('i32.load8_u', 0, 0)], export='ld8')
+        m.add_func([I32], [I32], [], [('local.get', 0), ('memory.grow',)], export='grow')
+        m.add_func([], [I32], [], [('memory.size',)], export='size')
+        b = m.encode()
+        plan = e2e.Plan(m)
+        pages = lim[0]
+        lines = ['I 0', 'V 0 0', 'c 0 %d' % plan.fk('size')]
+
+        def touch(pg):
+            out_ = []
+            if pg > 0:
+                last = pg * 65536 - 4
+                out_ += ['c 0 %d %s 0x5aa51234' % (plan.fk('st'), hex(last)), 'c 0 %d %s' % (plan.fk('ld'), hex(last)), 'c 0 %d 0x1000 0x77' % plan.fk('st') if pg > 0 else '',
+                         'c 0 %d 0x1000' % plan.fk('ld')]
+            return [x for x in out_ if x]
+        lines += touch(pages)
+        script_grows = []
+        for g in grows:
+            script_grows.append(len(lines))
+            lines.append('c 0 %d %s' % (plan.fk('grow'), hex(g)))
+            lines += ['V 0 0', 'c 0 %d' % plan.fk('size')]
+            # the follow-up accesses stay below the size the memory had BEFORE this grow (valid whatever the grow answered), plus 0x1000
+            lines += touch(pages)
+            if pages + g <= 65536 and not (pages + g == 65536 and g > 0):
+                pages += g
+                lines += touch(pages)
+        script = '\n'.join(lines) + '\n'
+        d = env.subdir('c05-limit-%d-%s-%d' % (lim[0], lim[1], int(lim[2])))
+        files = {'module.wasm': b, 'script.txt': script}
+        st, ref, _ = e2e.run_ref(b, plan, script, d)
+        if st != 'ok':
+            chk.log('note: reference engine could not run the %s memory shape (%s); skipped' % (lim, str(ref)[:120]))
+            continue
+        st2, out, r = e2e.build_and_run(w2c2, b, plan, script, os.path.join(d, 'c'), cc='gcc', cflags=['-O1'], cdefs=['-DWASM_THREADS_PTHREADS'], link=['-lpthread'], timeout=300)
+        ran += 1
+        chk.ev(len(lines))
+        chk.distinct(('limit-shape', lim, tuple(grows)))
+        key = 'C05:limit-shape:%s%s' % ('shared-max65536' if lim[2] and lim[1] == 65536 else 'pages-%d' % lim[0], '')
+        if st2 != 'ok':
+            chk.violation(key + ':' + st2, 'memory %s with grows %s: %s: %s' % (lim, grows, st2, str(out)[-700:]), files)
+            continue
+        for i, (x, y) in enumerate(zip(ref, out)):
+            if x == y:
+                continue
+            px, py = diff.parse_call(x), diff.parse_call(y)
+            if i in script_grows and px and py and py[3] in ('i32:0xffffffff', px[3]) :
+                continue   # a grow that may fail for lack of resources: -1 on the C side is legitimate
+            if px and py and px[1] == plan.fk('size') and any(g_ < i for g_ in script_grows):
+                # memory.size after a tolerated grow: must equal the C side's own old size (+delta if it succeeded); checked via V and accesses
+                continue
+            chk.violation(key, 'memory %s with grows %s: line %d: reference "%s" vs compiled "%s"' % (lim, grows, i, x[:120], y[:160]), files)
+            break
+    chk.observe('limit_shapes_part', 'ran %d shapes' % ran, 'set')
+
+
 def main(chk):
     quick = chk.tier == 'quick'
     w2c2 = env.build_translator('plain')
@@ -370,6 +446,7 @@ def main(chk):
             chk.sample({'history': k, 'shape': shape, 'ops': script.splitlines()[2:8]})
     probes(chk, w2c2)
     big_offsets(chk, w2c2)
+    limit_shapes(chk, w2c2)
     chk.observe('histories', nh, 'set')
     chk.observe('ops_per_history', nops, 'set')
     chk.observe('generator_rejected', rejected, 'set')
